@@ -24,8 +24,10 @@ void h_run(Case &c) {
   std::map<hwloc_obj_t, USet> CS; for (auto o : all) if (o->cpuset) to_uset(o->cpuset, CS[o]);
   bool nontrivial = !root->symmetric_subtree; int topodepth = hwloc_topology_get_depth(t);
   for (int q = 0; q < 30; q++) {
-    USet S; int mode = d.range(0, 6);
+    USet S; int mode = d.range(0, 6); USet offl; { USet rc; to_uset(root->complete_cpuset, rc); for (auto x : rc) if (!rootcs.count(x)) offl.insert(x); }
     if (mode == 0) S = CS[normal[d.raw() % normal.size()]]; else if (mode == 1) { for (auto x : pus) if (d.chance(1, 2)) S.insert(x); } else if (mode == 2) { for (auto x : pus) if (d.chance(1, 6)) S.insert(x); } else if (mode == 3) S = rootcs; else if (mode == 4) { for (auto x : pus) if (d.chance(1, 2)) S.insert(x); S.insert(pus.back() + 1 + d.range(0, 40)); } else if (mode == 5) { S = CS[normal[d.raw() % normal.size()]]; USet o2 = CS[normal[d.raw() % normal.size()]]; S.insert(o2.begin(), o2.end()); }
+    // offline PUs (in the complete cpuset only) are not part of any object's cpuset: a set that holds one is not included in the root
+    if (!offl.empty() && d.chance(1, 3)) { auto it = offl.begin(); std::advance(it, d.raw() % offl.size()); S.insert(*it); if (d.chance(1, 3)) S.insert(offl.begin(), offl.end()); c.cls("query-set:with-offline-pu"); }
     hwloc_bitmap_t bs = hwloc_bitmap_alloc(); for (auto x : S) hwloc_bitmap_set(bs, x); std::string Ss = ustr(S);
     // covering object = deepest normal object whose cpuset includes S (NULL for the empty set or S not in the root)
     { hwloc_obj_t cov = hwloc_get_obj_covering_cpuset(t, bs), best = NULL; if (!S.empty()) for (auto o : normal) if (subset(S, CS[o]) && (!best || o->depth > best->depth)) best = o;
